@@ -26,7 +26,7 @@ RULE = ('seeded random histories of integrate(chunk)/predict/get_pva/get_time/se
         ' Round 4: class vertical - pitch exactly +-90 on every row (stationary, Earth-rate-consistent readings) with set_pva relabelling the same physical attitude under another heading; set_pva with the labels of the state in another order.')
 ASSUMPTIONS = ['Euler-angle extraction gives the same bits for an element whatever the batch length (probed at start-up; '
                'if not, the run is inconclusive)', 'in 2-D histories the states given to set_pva have VD = 0 (non-zero VD is C13)']
-REQUIRED_OBS = ['set_pva_with_permuted_labels', 'set_pva_angles_kept', 'tables_with_permuted_columns', 'model_comparisons', 'predict_calls', 'set_pva_calls', 'growth_events', 'empty_chunks', 'kernel_calls',
+REQUIRED_OBS = ['predict_with_zero_increment', 'supplied_states_with_unwrapped_angles', 'set_pva_with_permuted_labels', 'set_pva_angles_kept', 'tables_with_permuted_columns', 'model_comparisons', 'predict_calls', 'set_pva_calls', 'growth_events', 'empty_chunks', 'kernel_calls',
                 'invariant_evaluations', 'chunks_ending_exactly_at_capacity', 'predict_when_full', 'boundscheck_histories',
                 'index_conservation_checked', 'stale_return_checked', 'histories_at_gimbal_lock', 'set_pva_at_gimbal_lock', 'histories_with_repeated_stamps', 'chunks_ending_before_repeated_stamp', 'huge_single_calls']
 REQUIRED_CLASSES = {'all': ['3d', '2d', 'long', 'boundscheck', 'repeated_stamps', 'huge', 'vertical']}
